@@ -346,6 +346,52 @@ static void tf_wide()
 }
 #endif
 
+// ---------------------------------------------------------------- consecutive calls with equal samples, results partly discarded
+// straight-line code at -O2: every call advances the filter state, whether or not its return value is used and whether or not the
+// previous call had the same arguments (a declaration that promises the compiler freedom from side effects would let it drop or merge calls)
+static __attribute__((noinline)) void step_same(a_tf *t, a_lpf *lp, a_hpf *hp, a_real x, a_real *out)
+{
+    out[0] = a_tf_iter(t, x); out[1] = a_tf_iter(t, x); out[2] = a_tf_iter(t, x);
+    (void)a_tf_iter(t, x); (void)a_tf_iter(t, x);
+    out[3] = a_tf_iter(t, x);
+    out[4] = a_lpf_iter(lp, x); out[5] = a_lpf_iter(lp, x);
+    (void)a_lpf_iter(lp, x);
+    out[6] = a_lpf_iter(lp, x);
+    out[7] = a_hpf_iter(hp, x); out[8] = a_hpf_iter(hp, x);
+    (void)a_hpf_iter(hp, x);
+    out[9] = a_hpf_iter(hp, x);
+}
+static void same_samples()
+{
+    if (R.shard.idx != 0) { return; }
+    std::vector<double> num = {1, 0.5}, den = {-0.5};
+    Filter F(num, den);
+    a_lpf lp; a_hpf hp;
+    a_lpf_init(&lp, (a_real)0.5);
+    a_hpf_init(&hp, (a_real)0.5);
+    a_real out[10];
+    a_tf *volatile vt = &F.tf;
+    a_lpf *volatile vl = &lp;
+    a_hpf *volatile vh = &hp;
+    step_same(vt, vl, vh, 1, out);
+    // reference: y[k] = x[k] + 0.5 x[k-1] + 0.5 y[k-1] on the constant input 1 (dyadic: exact); low-pass y += (x - y)/2; high-pass y = (y + x - x_prev)/2
+    double y = 0, xp = 0, want[10];
+    double tfy[6];
+    for (int k = 0; k < 6; ++k) { y = 1 + 0.5 * xp + 0.5 * y; xp = 1; tfy[k] = y; }
+    want[0] = tfy[0]; want[1] = tfy[1]; want[2] = tfy[2]; want[3] = tfy[5];
+    double l = 0, lv[4];
+    for (int k = 0; k < 4; ++k) { l = 0.5 * l + 0.5 * 1; lv[k] = l; }
+    want[4] = lv[0]; want[5] = lv[1]; want[6] = lv[3];
+    double h = 0, hx = 0, hv[4];
+    for (int k = 0; k < 4; ++k) { h = 0.5 * (h + (1 - hx)); hx = 1; hv[k] = h; }
+    want[7] = hv[0]; want[8] = hv[1]; want[9] = hv[3];
+    static const char *FN[10] = {"a_tf_iter", "a_tf_iter", "a_tf_iter", "a_tf_iter", "a_lpf_iter", "a_lpf_iter", "a_lpf_iter", "a_hpf_iter", "a_hpf_iter", "a_hpf_iter"};
+    for (int i = 0; i < 10; ++i)
+    {
+        if ((double)out[i] != want[i]) { R.viol(std::string(FN[i]) + "|equal-samples", std::string(FN[i]) + " called repeatedly with the same sample (some results unused): call " + std::to_string(i) + " returned " + ::num((double)out[i]) + ", the difference equation gives " + ::num(want[i]), "{\"call\":" + std::to_string(i) + "}"); }
+    }
+}
+
 // ---------------------------------------------------------------- RC filters
 static void rc_all(bool thorough)
 {
@@ -550,6 +596,7 @@ int main(int argc, char **argv)
     return vx::run_contained([&] {
         tf_all(thorough);
         tf_high(thorough);
+        same_samples();
 #if A_SIZE_REAL + 0 == 16
         tf_wide();
 #endif
